@@ -593,7 +593,14 @@ def r9_template_names_unmodified(ctx):
     ctx.floor('C08.R9', 'parameter registrations in RoutePath::parse', n, 1)
 
 
+def r10_checkers_see_the_current_sources(ctx):
+    from .c10 import r4b_source_hash_covers_src
+    r4b_source_hash_covers_src(ctx, 'C08.R10', 'shared with C10.R4b — every checker of the roster works on cached rustdoc JSON and annotations, never on the sources, so '
+                               'a violation planted in a file the cache key does not cover is analysed as the program it was BEFORE the edit and accepted. ')
+
+
 def check(ctx):
+    r10_checkers_see_the_current_sources(ctx)
     r1_roster_on_the_way(ctx)
     r2_reports_errors(ctx)
     r3_gated(ctx)
